@@ -361,6 +361,23 @@ def compare(it, st, got, exp):
         if e[0] == "struct" and "original" in e[2]:
             return compare(it, st, e[2]["original"], exp[1])
         raise Mismatch("the error value does not carry the original argument")
+    if isinstance(exp, tuple) and exp and exp[0] == "signed":
+        g = it.deref_all(st, got)
+        if not (g[0] == "struct" and g[1] == "bigint::BigInt"):
+            raise Mismatch("expected a BigInt in (sign, magnitude) form")
+        sg, d = g[2]["sign"], g[2]["data"]
+        kz = st.known_zero(d[1])
+        if kz is None:
+            raise NeedCase(d[1])
+        if kz:
+            if sg[2] is None and sg[1] != 0:
+                raise Mismatch("sign %d stored with a zero magnitude" % sg[1])
+            return
+        if sg[2] is not None:
+            sg = ("sign", sg[1], None)
+        if sg[1] != exp[1]:
+            raise Mismatch("non-zero result has sign %d, the operation on the sign bits gives %d" % (sg[1], exp[1]))
+        return
     if isinstance(exp, tuple) and exp and exp[0] == "sign":
         g = it.deref_all(st, got)
         if g[0] != "sign":
@@ -444,7 +461,7 @@ def check_body(facts, body, oracle, result_of="return", max_cases=400):
                         failures.append("%s: panics (%s), definition gives a value" % (label, out[2]))
                         continue
                     if result_of == "return":
-                        got = out[2]
+                        got = s3.apply(out[2])
                     else:
                         got = s3.env["arg1"]
                     compare(it, s3, got, exp)
@@ -1229,3 +1246,36 @@ def check_float_guard(ctx, res, config="all"):
     else:
         res.fail(Finding("C08-float-guard", "BigUint::from_f64:negative", "negative floats are not rejected with None", b))
     res.clause("C08: BigUint::from_f64 returns None for NaN/infinities before decoding and for negative values")
+
+
+def o_bitop(op):
+    def f(c):
+        sa, A = c.sm(1)
+        sb, B = c.sm(2)
+        if sa == 0:
+            return Poly() if op == "and" else c.init_val(2)
+        if sb == 0:
+            return Poly() if op == "and" else c.init_val(1)
+        na, nb = sa < 0, sb < 0
+        neg = {"and": na and nb, "or": na or nb, "xor": na != nb}[op]
+        return ("signed", -1 if neg else 1)
+
+    return f
+
+
+def bitop_targets(facts):
+    ops, classes = r2.analyse(facts)
+    out = []
+    for b in ops:
+        fam = r2.family_of(b)
+        if fam not in ("BitAnd", "BitOr", "BitXor") or classes[b.path]["kind"] != "leaf":
+            continue
+        if not any("bigint::BigInt" in t for t in [b.self_ty] + list(b.trait_args)):
+            continue
+        op = {"BitAnd": "and", "BitOr": "or", "BitXor": "xor"}[fam]
+        out.append((b, o_bitop(op), "arg1" if b.trait.endswith("Assign") else "return", "sign of a %s b = %s of the sign bits; zero operands: identity/annihilator; canonical result" % (op, op)))
+    return out
+
+
+def check_bitops(ctx, res):
+    run_targets(ctx, res, bitop_targets, "R5-bitop-sign", 5, "R5: BigInt & | ^ (assign and by-reference leaves): the result is negative iff op(a<0, b<0) in all 9 sign pairs, zero operands act as annihilator/identity, every arm leaves a canonical value")
